@@ -2,10 +2,12 @@
 import itertools
 from vlib import gen_parse, gen_doc
 from vlib.scn import Scenario, h
+from gen import extract_facts
+generate_facts = extract_facts.generate
 
 ID = "C04"
-LEAN_MODULES = ["Econf.Props.C04"]
-THEOREMS = ["Econf.C04_read_total", "Econf.C04_line_total", "Econf.C04_split_lossless", "Econf.parseLine_err"]
+LEAN_MODULES = ["Econf.Props.C04", "Econf.Props.Tie"]
+THEOREMS = ["Econf.C04_read_total", "Econf.C04_line_total", "Econf.C04_split_lossless", "Econf.parseLine_err", "Econf.Struct.tie_parser_codes"]
 SHRINK = False
 RULE = ("three input streams under ASan+UBSan with a per-scenario timeout: (1) all byte strings up to the tier's length over "
         "{a = space # [ ] \" newline} and random strings over a wider alphabet incl. NUL, tab, 0x80, ';'; (2) conventional documents "
